@@ -701,6 +701,18 @@ def subtree_features(recv):
 
 
 def check_document(ctx: Ctx, recipe, stream, r, specs_pool, unit_of_spec, requests, max_recv, n_specs):
+    """check_document_, with an exception of the real code turned into a violation (prettify/decode never raise on a tree)"""
+    n0 = len(requests)
+    try:
+        check_document_(ctx, recipe, stream, r, specs_pool, unit_of_spec, requests, max_recv, n_specs)
+    except Exception as ex:  # noqa: BLE001
+        import traceback
+        del requests[n0:]
+        report(ctx, "exception while building / rendering a document: " + type(ex).__name__,
+               case={"recipe": recipe, "traceback": traceback.format_exc()[-1500:]}, observed=repr(ex), stream=stream)
+
+
+def check_document_(ctx: Ctx, recipe, stream, r, specs_pool, unit_of_spec, requests, max_recv, n_specs):
     """runs the real code + oracle on one document, appends model requests; returns nothing"""
     e = E()
     Tag, BS = e["Tag"], e["BeautifulSoup"]
